@@ -73,6 +73,23 @@ func (in SamInput) queryNames() []string {
 	return names
 }
 
+// groups returns the query names in input order and their aligned records (one pass: use this instead of
+// queryNames + recordsOf when the file may hold thousands of records).
+func (in SamInput) groups() ([]string, map[string][]SamRec) {
+	var names []string
+	m := map[string][]SamRec{}
+	for _, r := range in.Recs {
+		if r.Kind != "aligned" {
+			continue
+		}
+		if _, ok := m[r.Name]; !ok {
+			names = append(names, r.Name)
+		}
+		m[r.Name] = append(m[r.Name], r)
+	}
+	return names, m
+}
+
 func (in SamInput) recordsOf(name string) []SamRec {
 	var rs []SamRec
 	for _, r := range in.Recs {
@@ -293,6 +310,8 @@ type samGenOpts struct {
 	fixedRef      string // if set: use this reference (annotation properties)
 	fixedRefName  string
 	hugeEvery     int // if > 0: one case in hugeEvery gets a long reference with operators longer than typical buffer sizes
+	manyEvery     int // if > 0: one case in manyEvery has thousands of queries (copies of the generated ones under new names)
+	manyTargets   []int // record counts to choose from (default 300, 700, 4200, 4200, 8300)
 }
 
 func genRef(t *rapid.T, minLen, maxLen int, iupac bool) string {
@@ -562,6 +581,9 @@ func genSamInput(t *rapid.T, o samGenOpts) SamInput {
 	}
 	hugeMode = huge
 	nq := rapid.IntRange(1, o.maxQueries).Draw(t, "nQueries")
+	if !huge && sizeClass(t, "sam") == 1 {
+		nq = rapid.IntRange(40, 80).Draw(t, "nQueriesMany")
+	}
 	var names []string
 	for qi := 0; qi < nq; qi++ {
 		name := genID(t, qi, "qname")
@@ -593,6 +615,22 @@ func genSamInput(t *rapid.T, o samGenOpts) SamInput {
 		}
 		if o.allowNoise && qi == nq-1 && rapid.IntRange(0, 5).Draw(t, "noiseLast") == 0 {
 			in.Recs = append(in.Recs, genNoiseRecord(t, names[rapid.IntRange(0, len(names)-1).Draw(t, "noiseName")], in.Ref))
+		}
+	}
+	if o.manyEvery > 0 && !huge && rapid.IntRange(0, o.manyEvery-1).Draw(t, "manyCase") == 0 {
+		// thousands of records: more than any block / ring / channel size an implementation may use
+		// (256, 4096, 8192); the generated queries are repeated under fresh names, multi-record ones included
+		mt := o.manyTargets
+		if len(mt) == 0 {
+			mt = []int{300, 700, 4200, 4200, 8300}
+		}
+		target := rapid.SampledFrom(mt).Draw(t, "manyTarget")
+		base, baseRecs := in.groups()
+		for k := 0; len(in.Recs) < target; k++ {
+			for _, r := range baseRecs[base[k%len(base)]] {
+				r.Name = fmt.Sprintf("rep%d_%s", k, r.Name)
+				in.Recs = append(in.Recs, r)
+			}
 		}
 	}
 	return in
@@ -631,8 +669,12 @@ func labelSam(in SamInput, o *Obs) {
 		o.LabelIf(r.Pos == 1, "pos=1")
 		o.LabelIf(r.Pos-1+refSpan(r.Ops) == L, "ends-at-L")
 	}
-	for _, n := range in.queryNames() {
-		rs := in.recordsOf(n)
+	gnames, gm := in.groups()
+	o.LabelIf(len(gnames) >= 40, "queries>=40")
+	o.LabelIf(len(in.Recs) > 4096, "records>4096")
+	o.LabelIf(len(in.Recs) > 256, "records>256")
+	for _, n := range gnames {
+		rs := gm[n]
 		o.LabelIf(len(rs) > 1, "multi-record-query")
 		if len(rs) > 1 {
 			// overlap?
